@@ -207,4 +207,48 @@ theorem normalizeXmlId_partial (s : Str)
   unfold normalizeXmlId xmlIdSpec stripOneSuffix
   rw [trimLeft_stripOne h1, trimLeft_stripOne h2]
 
+/-! ### Text merging and name resolution -/
+
+/-- Two consecutive pieces of character data give the same node as their concatenation. -/
+theorem addText_addText (b : Builder) (c1 c2 : Str) :
+    (b.addText c1).1.addText c2 = b.addText (c1 ++ c2) := by
+  unfold Builder.addText
+  cases hr : b.cur.rkids with
+  | nil => simp [Builder.curPath]
+  | cons k more =>
+    cases k with
+    | node v ks =>
+      cases v <;> simp [Builder.curPath, List.append_assoc]
+
+theorem lookupPrefix_cons (d : List (Nat × Nat)) (st : NsStack) (p : Nat) :
+    lookupPrefix (d :: st) p = (match findInDecls p d with | some ns => some ns | none => lookupPrefix st p) := by
+  simp only [lookupPrefix, List.findSome?]
+  cases findInDecls p d <;> rfl
+
+theorem lookup_xml_new (env : Env) : lookupPrefix (Builder.new env).nsStack Env.xmlPrefix = some Env.xmlNamespace := by
+  rfl
+
+theorem lookup_default_new (env : Env) : lookupPrefix (Builder.new env).nsStack Env.emptyPrefix = some Env.noNamespace := by
+  rfl
+
+theorem attributeNameId_unprefixed (env : Env) (stack : NsStack) (name : Str) (sp : Span)
+    (h : env.prefixes.head? = some []) :
+    attributeNameId env stack [] name sp = .ok (env.internName name Env.noNamespace) := by
+  unfold attributeNameId
+  have : env.internPrefix [] = (env, 0) := by
+    cases hp : env.prefixes with
+    | nil => simp [hp] at h
+    | cons x xs =>
+      simp only [hp, List.head?_cons, Option.some.injEq] at h
+      subst h
+      cases env
+      simp only at hp
+      subst hp
+      simp [Env.internPrefix, internIn, List.idxOf, List.findIdx, List.findIdx.go]
+  simp [this, Env.emptyPrefix]
+
+/-- The last declaration of a prefix on one start tag is the one that is found. -/
+theorem findInDecls_append (p ns : Nat) (l : List (Nat × Nat)) : findInDecls p (l ++ [(p, ns)]) = some ns := by
+  simp [findInDecls]
+
 end XotModel
